@@ -212,6 +212,24 @@ def run_case(c, R):
                   want=float(value[i, j]), bound=float(bound[i, j]), nbad=int(bad_o.sum()))
     else:
         R.check(True, 'non-mandatory-pixel-neither-general-nor-zero')
+    # wherever the helper put anything at all it is THE general injection: same shipped profile object, same path, same constant
+    # time profile, same sub-step count, evaluated on the frame's own axes -- elementwise arithmetic on identical inputs, so the
+    # values are identical, not merely close (a helper that computes on a re-derived frequency axis is off by an ulp of the sky
+    # frequency: invisible to the interval bound above, decisive for a box edge on a channel centre)
+    lib_prof = {'gaussian': lambda: stg.gaussian_f_profile(width), 'lorentzian': lambda: stg.lorentzian_f_profile(width),
+                'voigt': lambda: stg.voigt_f_profile(width, width), 'sinc2': lambda: stg.sinc2_f_profile(width),
+                'box': lambda: stg.box_f_profile(width)}[c['profile']]
+    nzm = h != 0
+    exact = []
+    for n_ in ns:
+        f3 = c01.make_frame(stg, g)
+        gen_ = f3.add_signal(stg.constant_path(f_start, drift), stg.constant_t_profile(lvl), lib_prof(), stg.constant_bp_profile(level=1),
+                             doppler_smearing=c['smear'], smearing_subsamples=n_)
+        exact.append(int((h[nzm] != gen_[nzm]).sum()))
+    R.count('bitwise_general_comparisons')
+    R.count('bitwise_pixels_compared', int(nzm.sum()))
+    R.check(min(exact) == 0, 'helper-value-differs-bitwise-from-general-injection', nbad=min(exact), of=int(nzm.sum()), profile=c['profile'],
+            smear=c['smear'])
     ok_all = np.abs(h - value) <= bound
     R.maximum('sig_err_over_bound', float(np.max(np.where(dec & mand & (bound > 0), np.abs(h - value) / np.where(bound > 0, bound, 1), 0))))
     R.mark_nontrivial(bool((mand & dec).any()))
